@@ -45,7 +45,7 @@ CLAIMS = {
     note="Trusted: Kani 0.68, CBMC 6.11, CaDiCaL; the documented-range oracle. Stubs: regex::Regex::new (count vectoriser), rayon bridges (thorough real-builder harnesses), listed per harness in evidence. Assumed: finite non-NaN floats, -0.0 excluded; unwind bounds per harness (unwinding assertions on). Timeout / OOM / ICE / unsatisfied cover are reported inconclusive, never as a pass.",
     design_ref="DESIGN.md §3, §4 C04"),
  "C05": dict(
-    text="Partial (ROC/AUC and log-loss take f32 probabilities and are outside). Regression metrics (max/mean/median absolute error, MSE, MSLE structure, MAPE, R2, explained variance; Array1/Array2/Dataset receivers, per column), silhouette score (two clusters, 1-D) and Pearson correlation run on symbolic integer vectors (n<=4-6); each result is tied to its textbook formula by z3 in cross-multiplied form (so that divisions/sqrt appear only as the terms linfa itself built), plus permutation invariance inside one run. The confusion matrix and everything derived from it (accuracy, precision, recall, F-beta, MCC, one-vs-all / one-vs-one splits) run on every pair of symbolic label vectors (n<=4, <=3 classes, usize/bool/String labels, all four call forms) and are recomputed from the label vectors on each path. Two recorded defects (explained_variance formula; transposed matrix for array.confusion_matrix(&dataset)) are reported as KNOWN-FINDING by dedicated jobs.",
+    text="Regression metrics (max/mean/median absolute error, MSE, MSLE structure, MAPE, R2, explained variance; Array1/Array2/Dataset receivers, per column), silhouette score (two clusters, 1-D) and Pearson correlation run on symbolic integer vectors (n<=4-6); each result is tied to its textbook formula by z3 in cross-multiplied form (so that divisions/sqrt appear only as the terms linfa itself built), plus permutation invariance inside one run. The confusion matrix and everything derived from it (accuracy, precision, recall, F-beta, MCC, one-vs-all / one-vs-one splits) run on every pair of symbolic label vectors (n<=4, <=3 classes, usize/bool/String labels, all four call forms) and are recomputed from the label vectors on each path. ROC / AUC / log-loss take f32 probabilities, which cannot be symbolic scalars: every (score, label) vector over score grids with 3-9 levels incl. ties and the boundary scores 0 and 1 (n<=4 quick, 6 thorough) is enumerated by the solver and AUC == Mann-Whitney (ties 1/2), curve monotone from (0,0) to (1,1), log-loss == mean clipped negative log-likelihood are recomputed on each. Two recorded defects (explained_variance formula; transposed matrix for array.confusion_matrix(&dataset)) are reported as KNOWN-FINDING by dedicated jobs.",
     technique="symbolic-scalar concolic execution + SMT (z3, nonlinear obligations cross-multiplied); solver-guided enumeration of label vectors; native replay",
     design_ref="DESIGN.md §4 C05"),
  "C16": dict(
